@@ -13,8 +13,10 @@ EXTENDS BM_Matchers, Json
 CONSTANTS MaxLen, Subst, Emit
 
 \* per matcher: a working alphabet (own characters that matter + hostile ones) and documented examples
+\* a line feed is a control character too; it is documented only for the two free-text matchers
+LineFeed(m) == IF m \in {"SpaceSeparatedTokens", "Paragraph"} THEN {} ELSE {"LF"}
 Alphabet(m) ==
-  Hostile \cup
+  Hostile \cup LineFeed(m) \cup
   CASE m = "CellAlign" -> {"l", "e", "f", "t", "T", " "}
     [] m = "CellVerticalAlign" -> {"t", "o", "p", "P", " "}
     [] m = "Direction" -> {"r", "t", "l", "L", " "}
